@@ -1,5 +1,6 @@
 (* Props/C01.v -- C01: Z80 instructions assemble to their Zilog encoding, and only to it. *)
 From Az65 Require Import Base Token Expr ExprParse Linker Asm Arch ArchTables LinkerFacts ArchSpec IsaZ80 Z80Facts Z80Sound Z80Complete.
+From Az65 Require Import LinkerFacts LinkGenFacts.
 
 (* (1) Every path of the Z80 instruction parser (798 rows = every accepted operand pattern), for
        ALL operand bytes, emits bytes that the Zilog decoder -- written independently from the opcode
@@ -45,3 +46,12 @@ Theorem C01_disp_refuted :
   (exists v, -128 <= v <= -1 /\ now_bytes FByte v = Diag DkRange).
 Proof. exact disp_refuted. Qed.
 Print Assumptions C01_disp_refuted.
+
+(* TRANSLATOR TIE for operands that are only known at link time: the range test and the stores of the five arms of
+   Module::link, re-translated from src/linker.rs on every run, are those of the model's apply_link. *)
+Theorem C01_generated_link_arms :
+  forall st (l : Linker.link) (d : list N) (v : Z),
+    Expr.eval_top st (Linker.l_expr l) = Expr.Val v -> in_i32 v ->
+    Linker.apply_link st l d = gen_apply_link (Linker.l_kind l) (Linker.l_off l) v d.
+Proof. exact generated_link_arms_are_model_arms. Qed.
+Print Assumptions C01_generated_link_arms.
